@@ -123,12 +123,15 @@ class G:
 
     ALL = frozenset(["calllam", "kwlam", "curry", "first", "dict", "tuple", "ifexp", "bool", "count", "method", "func", "neg", "sum", "nested"])
 
-    def __init__(self, ch, form="fn", feats=None):
+    def __init__(self, ch, form="fn", feats=None, py=False, typed=False):
         self.ch = ch
         self.nb = 0
-        self.form = form
+        self.form = "meth" if py else form
+        self.py = py            # only forms CPython can execute on in-memory sequences (method-form operators, no record attribute access)
+        self.typed = typed      # opaque members are methods of the typed model (mi_pt(), mso_jets(), ...) instead of attributes
         self.feats = self.ALL if feats is None else frozenset(feats)
         self.used = collections.Counter()
+        self.rec_access = "key" if py else "both"   # how named records are taken apart: ['k'] / .k / both
 
     def fresh(self):
         self.nb += 1
@@ -157,8 +160,10 @@ class G:
             if is_rec(vt):
                 for k, ct in vt[1:]:
                     if ct == t:
-                        opts.append(("key", v, k))
-                        opts.append(("fld", v, k))
+                        if self.rec_access in ("key", "both"):
+                            opts.append(("key", v, k))
+                        if self.rec_access in ("fld", "both"):
+                            opts.append(("fld", v, k))
         F = self.feats
         if d > 0:
             if t in ATTR:
@@ -183,6 +188,8 @@ class G:
                     opts.append(("sum",))
                 if "tuple" in F:
                     opts.append(("mkproj",))
+                if "comp" in F and self.py:
+                    opts.append(("lencomp",))     # a comprehension is a plain Python list: only len() can consume it
             if t == B:
                 opts.append(("cmp",))
                 if "bool" in F:
@@ -195,7 +202,7 @@ class G:
             if is_seq(t):
                 opts.append(("select",))
                 opts.append(("where",))
-                if "comp" in F:
+                if "comp" in F and not self.py:
                     opts.append(("comp",))
                 if "nested" in F and t == Sq(O):
                     opts.append(("selectmany",))
@@ -215,7 +222,10 @@ class G:
         if k == "attr":
             names = ATTR[t]
             recv = self.expr(O, scope, d - 1)
-            return ast.Attribute(recv, names[self.ch.pick(len(names))], L)
+            nm = names[self.ch.pick(len(names))]
+            if self.typed:
+                return self.typed_member(recv, nm, scope, d)
+            return ast.Attribute(recv, nm, L)
         if k == "bin":
             op = [ast.Add, ast.Sub][self.ch.pick(2)]()
             return ast.BinOp(self.expr(I, scope, d - 1), op, self.expr(I, scope, d - 1))
@@ -233,7 +243,8 @@ class G:
             et = [O, I][self.ch.pick(2)]
             return self.opcall("Count", self.expr(Sq(et), scope, d - 1))
         if k == "sum":
-            return ast.Call(N(["Sum", "Max", "len"][self.ch.pick(3)]), [self.expr(Sq(I), scope, d - 1)], [])
+            fn = "len" if self.py else ["Sum", "Max", "len"][self.ch.pick(3)]
+            return ast.Call(N(fn), [self.expr(Sq(I), scope, d - 1)], [])
         if k == "first":
             return self.opcall("First", self.expr(Sq(t), scope, d - 1))
         if k == "if":
@@ -250,7 +261,7 @@ class G:
             return ast.Call(N("fn_i_calib"), [self.expr(O, scope, d - 1)], [])
         if k == "mkproj":
             # build a package and take it apart again in place
-            c = self.ch.pick(3)
+            c = self.ch.pick(2 if self.py else 3)
             a, b = self.expr(I, scope, d - 1), self.expr(O, scope, d - 1)
             if c == 0:
                 return ast.Subscript(ast.Tuple([a, b], L), ast.Constant(0), L)
@@ -286,9 +297,19 @@ class G:
             src = self.expr(t, scope, d - 1)
             lm, _ = self.lam1(et, lambda sc, dd: (self.expr(B, sc, dd), B), scope, d - 1)
             return self.opcall("Where", src, lm)
+        if k == "lencomp":
+            et = [I, O][self.ch.pick(2)]
+            return ast.Call(N("len"), [self.mkcomp(et, scope, d, list_only=True)], [])
         if k == "comp":
-            # [elt for v in src if c1 if c2 ...]  (list comprehension or generator expression)
-            et = t[1]
+            return self.mkcomp(t[1], scope, d)
+        if k == "selectmany":
+            src = self.expr(Sq(O), scope, d - 1)
+            lm, _ = self.lam1(O, lambda sc, dd: (self.expr(Sq(O), sc, dd), Sq(O)), scope, d - 1)
+            return self.opcall("SelectMany", src, lm)
+        raise AssertionError(k)
+
+    def mkcomp(self, et, scope, d, list_only=False):
+            "[elt for v in src if c1 if c2 ...]  (list comprehension or generator expression)"
             st = [O, I][self.ch.pick(2)]
             src = self.expr(Sq(st), scope, d - 1)
             v = self.fresh()
@@ -296,13 +317,25 @@ class G:
             nifs = self.ch.pick(3)
             ifs = [self.expr(B, sc2, d - 1) for _ in range(nifs)]
             elt = self.expr(et, sc2, d - 1)
-            node = [ast.ListComp, ast.GeneratorExp][self.ch.pick(2)]
+            node = ast.ListComp if list_only else [ast.ListComp, ast.GeneratorExp][self.ch.pick(2)]
             return node(elt, [ast.comprehension(ast.Name(v, ast.Store()), src, ifs, 0)])
-        if k == "selectmany":
-            src = self.expr(Sq(O), scope, d - 1)
-            lm, _ = self.lam1(O, lambda sc, dd: (self.expr(Sq(O), sc, dd), Sq(O)), scope, d - 1)
-            return self.opcall("SelectMany", src, lm)
-        raise AssertionError(k)
+
+    TYPED_DEFAULTS = {"mi_pt": [("scale", 1)], "mso_jets": [("name", "d")], "mso_trk": [("n", 3)]}
+
+    def typed_member(self, recv, attr_name, scope, d):
+        "i_pt -> recv.mi_pt(...) with the declared defaults omitted, given positionally or by keyword"
+        m = "m" + attr_name
+        dflt = self.TYPED_DEFAULTS.get(m)
+        if not dflt:
+            return ast.Call(ast.Attribute(recv, m, L), [], [])
+        pname, pval = dflt[0]
+        c = self.ch.pick(3)
+        if c == 0:
+            return ast.Call(ast.Attribute(recv, m, L), [], [])
+        val = ast.Constant(pval if c == 1 or isinstance(pval, str) else pval + 1)
+        if c == 1:
+            return ast.Call(ast.Attribute(recv, m, L), [val], [])
+        return ast.Call(ast.Attribute(recv, m, L), [], [ast.keyword(pname, val)])
 
     def item_expr(self, scope, d):
         "body of a Select stage: (expr, type) - scalar, object, package or sequence"
